@@ -31,6 +31,25 @@ def main():
     patch, demo = f"{out}/patch{n}.diff", f"{out}/demo{n}"
     meta = {"property": prop, "n": int(n),
             "source": "independent sub-agent given only the property text and a scratch worktree"}
+    from_seeded = "--from-seeded" in sys.argv
+    if from_seeded:
+        # re-evaluation of a stored change: patch and demo come from /verif/seeded/<id>/, its meta.json is updated in place
+        sd = f"{V}/seeded/{prop}-{n}"
+        patch = f"{sd}/patch.diff"
+        os.makedirs(out, exist_ok=True)
+        demo = f"{out}/demo{n}"
+        shutil.rmtree(demo, ignore_errors=True)
+        if os.path.isdir(f"{sd}/demo"):
+            shutil.copytree(f"{sd}/demo", demo)
+            gmf = f"{demo}/go.mod"
+            if os.path.exists(gmf):
+                t = open(gmf).read().replace("=> /repo", f"=> {wt}")
+                open(gmf, "w").write(t)
+        try:
+            meta = json.load(open(f"{sd}/meta.json"))
+        except Exception:
+            pass
+        meta.setdefault("history", "")
     clean = f"git -C {wt} checkout -- . && git -C {wt} clean -fdq"
     sh(clean)
     rc, o = sh(f"git -C {wt} apply {patch}")
@@ -86,6 +105,13 @@ def main():
         shutil.rmtree(vc, ignore_errors=True)
 
     dst = f"{V}/seeded/{prop}-{n}"
+    meta["evaluated_at"] = {"verif": subprocess.run(["git", "-C", V, "rev-parse", "--short", "HEAD"], capture_output=True, text=True).stdout.strip(),
+                            "repo": subprocess.run(["git", "-C", wt, "rev-parse", "--short", "HEAD"], capture_output=True, text=True).stdout.strip()}
+    if from_seeded:
+        meta["evaluated_with"] = "tools/pareval.py --from-seeded (private copy of /verif, AVO_REPO = scratch worktree with the patch applied)"
+        json.dump(meta, open(f"{dst}/meta.json", "w"), indent=1)
+        print(json.dumps({k: v for k, v in meta.items() if k in ("property", "n", "checks", "quiet_when_restored", "demo_fails_with_change", "demo_passes_without_change")}, indent=1))
+        return
     shutil.rmtree(dst, ignore_errors=True)
     os.makedirs(dst)
     shutil.copy(patch, f"{dst}/patch.diff")
